@@ -163,12 +163,12 @@ func optimalOnce(c OptCase, o *Obs, m align.SubstitutionMatrix, rm ref.Matrix, w
 	if c.Local {
 		name = "Local"
 	}
-	if res.score != opt {
+	if !near(res.score, opt, c.M.tol()) {
 		msg := fmt.Errorf("%s(%q,%q) score %v (steps %s), optimum is %v (%s)", name, []byte(c.A), []byte(c.B), res.score, stepString(res.steps), opt, matDesc(c.M))
 		if res.score > opt {
 			return fmt.Errorf("%v -- score ABOVE the optimum", msg)
 		}
-		if wantNonZeroOpen && res.score == ref.SingleTable(c.A, c.B, rm, c.Local) {
+		if wantNonZeroOpen && near(res.score, ref.SingleTable(c.A, c.B, rm, c.Local), c.M.tol()) {
 			o.Class("suboptimal (single-table recurrence)")
 			return fmt.Errorf("%w: %v", errKnownC10, msg)
 		}
@@ -197,7 +197,7 @@ func optimalOnce(c OptCase, o *Obs, m align.SubstitutionMatrix, rm ref.Matrix, w
 		if err != nil {
 			return err
 		}
-		if res2.score != res.score {
+		if !near(res2.score, res.score, c.M.tol()) {
 			return fmt.Errorf("%s with %s: score(a,b)=%v but score(b,a)=%v for a=%q b=%q", name, c.M.Named, res.score, res2.score, []byte(c.A), []byte(c.B))
 		}
 	}
